@@ -50,9 +50,13 @@ def LibOk (jid : Option Bytes) (it : Item) (o : Owner) (s : Snap) : Prop :=
   | .resume _ _ => s.g.offeredSm = true ∧ s.g.authOk = true
   | _ => True
 
+/-- a user-owned element is one the application submitted (`U`) or the stanza its connection handler
+    sends from within the CONNECT notification -/
+def UOk (U : Item → Prop) (it : Item) : Prop := U it ∨ ∃ n i, it = .user n i
+
 /-- `U`: what the application may submit; `NR`: the history does not use `xmpp_send_raw` -/
 def EOk (jid : Option Bytes) (U : Item → Prop) (NR : Prop) (it : Item) (o : Owner) (s : Snap) : Prop :=
-  (o = .user → U it ∧ (NR → s.negotiated = true)) ∧ (o ≠ .user → LibOk jid it o s)
+  (o = .user → UOk U it ∧ (NR → s.negotiated = true)) ∧ (o ≠ .user → LibOk jid it o s)
 
 def isHdrFrom (it : Item) : Prop := ∃ to f comp, it = .hdr to (some f) comp
 
